@@ -390,15 +390,49 @@ func (st *State) assume(vc *VC, fact string) {
 		st.pc = vc.forceName("pc", "Bool", And(st.pc, fact))
 		for _, q := range vc.quants {
 			if strings.Contains(fact, q.Text) {
-				if vc.assumedAt == nil {
-					vc.assumedAt = map[string][]string{}
+				// only where the quantified formula occurs positively: as a conjunct, possibly under the conclusions of
+				// implications, whose hypotheses then guard the instance together with the path condition
+				for _, g := range positiveGuards(fact, q.Text, nil) {
+					if vc.assumedAt == nil {
+						vc.assumedAt = map[string][]string{}
+					}
+					vc.assumedAt[q.Text] = append(vc.assumedAt[q.Text], And(append([]string{st.pc}, g...)...))
 				}
-				vc.assumedAt[q.Text] = append(vc.assumedAt[q.Text], st.pc)
 			}
 		}
 		return
 	}
 	st.pc = vc.name("pc", "Bool", And(st.pc, fact))
+}
+
+// positiveGuards: the occurrences of q as a positive conjunct of fact. Each result is the list of hypotheses of the
+// implications it sits under (fact = (and .. (=> A (and .. q ..)) ..) gives [A]). Occurrences under negation, on the left of
+// an implication, in a disjunction or an ite are not reported.
+func positiveGuards(fact, q string, guard []string) [][]string {
+	if fact == q {
+		return [][]string{append([]string(nil), guard...)}
+	}
+	if !strings.Contains(fact, q) {
+		return nil
+	}
+	var out [][]string
+	switch {
+	case strings.HasPrefix(fact, "(and "):
+		for _, c := range splitSexp(fact)[1:] {
+			out = append(out, positiveGuards(c, q, guard)...)
+		}
+	case strings.HasPrefix(fact, "(=> "):
+		parts := splitSexp(fact)
+		if len(parts) == 3 {
+			out = append(out, positiveGuards(parts[2], q, append(append([]string(nil), guard...), parts[1]))...)
+		}
+	case strings.HasPrefix(fact, "(! "):
+		parts := splitSexp(fact)
+		if len(parts) >= 2 {
+			out = append(out, positiveGuards(parts[1], q, guard)...)
+		}
+	}
+	return out
 }
 
 // ---------- heap ----------
